@@ -218,6 +218,8 @@ def c10_neighbours(n, seed, procs):
     tab = json.load(open(path))
     far = os.path.join(HERE, "ref_far.json")          # tuples FAR from the suite's (mk_neighbours.py far): other regimes of the closed forms, L != 1, many iterations
     if os.path.exists(far): tab = tab + json.load(open(far))
+    edge = os.path.join(HERE, "ref_edge.json")        # tuples at the boundary of the ranges (mk_neighbours.py edge): n = 0, 1, 2 and mu = 0
+    if os.path.exists(edge): tab = tab + json.load(open(edge))
     rnd = random.Random(seed * 911 + 7)
     idx = list(range(len(tab)))
     if n < len(tab):
